@@ -234,6 +234,24 @@ def crafted_duplicate_assignments(s):
     return pr
 
 
+def crafted_problems(seed, per_family):
+    """(seed_i, problem) from the three crafted families only -- a directed prefix for callers that restrict the grammar of `problems`, so that
+    their random stream stays what it was"""
+    for fam_i, fam in enumerate((crafted_nested_invariant, crafted_nested_quantifiers, crafted_duplicate_assignments)):
+        for j in range(per_family):
+            s = 8_000_000 + (seed % 1000) * 1000 + fam_i * 100 + j
+            try:
+                with warnings.catch_warnings():
+                    warnings.simplefilter("ignore")
+                    pr = fam(s)
+                st0 = seqsem.initial_state(pr)
+                if not seqsem.initial_ok(pr, st0):
+                    continue
+            except Exception:  # noqa
+                continue
+            yield s, pr
+
+
 def problems(seed, count, features=None, need=None):
     """yields (seed_i, problem) for well-formed generated problems whose initial state is legal; three of every eight problems come from the
     crafted families `crafted_nested_invariant` / `crafted_nested_quantifiers` / `crafted_duplicate_assignments` when the caller does not restrict the grammar (features=None: C01, C02) or asks for it"""
